@@ -32,7 +32,7 @@ COMPONENTS = {
 }
 PROBES = ["tally pool conflict", "later record overrides contest", "phantom and real record merged", "pool flag only on later record",
           "three or more records for one card", "raire multi-contest card", "raire empty ranking", "no duplicates at all",
-          "falsy tally pool label"]
+          "falsy tally pool label", "falsy card identifier", "raire ballot id equals a candidate id"]
 
 
 def generate(rng, tier):
@@ -46,7 +46,14 @@ def generate(rng, tier):
             contests.append({"id": str(300 + j), "cands": cands})
         ballots = []
         nb = rng.randint(1, 8)
-        bids = [f"{rng.randint(1, 9)}_{rng.randint(1, 9)}_{k}" for k in range(nb)]
+        if rng.chance(0.4):
+            # ballots numbered 1..n in the same name space as the candidates (as real RAIRE files do)
+            bids = [str(k + 1) for k in range(nb)]
+            for con in contests:
+                if rng.chance(0.7):
+                    con["cands"] = sorted(set(con["cands"]) | {str(rng.randint(1, nb)) for _ in range(2)})
+        else:
+            bids = [f"{rng.randint(1, 9)}_{rng.randint(1, 9)}_{k}" for k in range(nb)]
         for _ in range(rng.randint(1, cfg["max_records"])):
             con = rng.pick(contests)
             n = rng.randint(0, len(con["cands"]))
@@ -54,6 +61,10 @@ def generate(rng, tier):
         return {"kind": "raire", "contests": contests, "ballots": ballots, "via_file": rng.chance(0.6)}
     ncards = rng.randint(1, 6)
     ids = [f"card{j}" for j in range(ncards)]
+    if rng.chance(0.35):  # identifiers need not be truthy: a card numbered 0, an empty label
+        ids[0] = rng.pick([0, ""])
+        if ncards > 2 and rng.chance(0.3):
+            ids[1] = 0 if ids[0] == "" else ""
     cons = [f"K{j}" for j in range(rng.randint(1, 4))]
     pools = [None, None, "p1", "p2", 0, ""]  # a batch index 0 or an empty label is a label, not "no pool"
     conflict = rng.chance(0.25)
@@ -135,6 +146,8 @@ def execute(case):
                 if r["pool"] and not p["pool"]:
                     out.probe("pool flag only on later record")
             seen.setdefault(r["id"], r)
+        if any(r["id"] in (0, "") for r in recs):
+            out.probe("falsy card identifier")
         if ref is None:
             out.probe("tally pool conflict")
         if any(r["tally_pool"] is not None and not r["tally_pool"] for r in recs):
@@ -175,6 +188,8 @@ def execute(case):
         out.fault("F13 records for one card fragmented / repeated")
     if any(not b["ranking"] for b in case["ballots"]):
         out.probe("raire empty ranking")
+    if any(b["id"] in b["ranking"] for b in case["ballots"]):
+        out.probe("raire ballot id equals a candidate id")
     out.units["records"] += len(recs)
     try:
         if case["via_file"]:
